@@ -17,7 +17,7 @@ PROPS = {
         "rule": "all 2^9 subsets of {elemhide,generichide,jsinject,document,urlblock,genericblock,content,extension,important} "
                 "on an exception rule (direct GetCosmeticOption and through Engine.MatchRequest+GetCosmeticResult), on a blocking rule, as a referrer-only (document) rule with no basic rule (struct and engine), with replace/csp/stealth rules present, "
                 "and no basic rule, enumerated exhaustively; plus rapid-sampled written orders/patterns. Oracle: All minus union(disabled(m)); "
-                "monotone under adding any modifier; the option is the same before and after GetBasicResult is evaluated; through the engine the selectors of generic, specific, wildcard-TLD and generic-with-excluded-domains rules are present iff the option says so. Non-trivial = exception with >=2 modifiers of which at least one disables something; distinct by (kind, modifier set).",
+                "monotone under adding any modifier; the option is the same before and after GetBasicResult is evaluated; an $important block listed before or after the exception changes the option only for non-important exceptions; END TO END: every subset's page is fetched through the real proxy.Server (loop-back port, in-process web server, one exception rule per subset) with four Accept headers and the option is read from the injected tag; through the engine the selectors of generic, specific, wildcard-TLD and generic-with-excluded-domains rules are present iff the option says so. Non-trivial = exception with >=2 modifiers of which at least one disables something; distinct by (kind, modifier set).",
         "exhaustive_note": "all 512 modifier subsets x {exception, engine, block, referrer-only (struct, engine), with other rule kinds} + absent rule",
         "technique": "exhaustive enumeration of the finite modifier-subset space + rapid sampling against a set-algebra oracle",
         "level_text": "Exhaustive over the finite space the property quantifies over (512 subsets x 3 rule kinds + absent rule), so within that space the property is decided; sampled for written order and pattern.",
@@ -172,7 +172,7 @@ PROPS = {
     "C13": {
         "shards": (4, 16),
         "rule": "rapid histories (sequence generated as one shrinkable value): lists (String or File backed, 1..3 lists, all tables populated, hosts lines, cosmetic rules, $dnsrewrite rules and exceptions, plus field-sensitive rules that match iff client IP / client name / tag / record type / source has a given value) and 10..60 (thorough ..200) steps over ONE long-lived Engine+NetworkEngine+DNSEngine: queries built from the rules, bursts that toggle exactly one client field between otherwise equal queries, repeats of earlier queries, derived-result calls (DNSRewrites, DNSRewritesAll, GetDNSBasicRule, GetBasicResult, GetCosmeticOption) on OLD result objects, queries whose request object the caller mutates afterwards; the same DNS name in several letter cases in a row; rule blocks for the $domain buckets of a domain and its sub-domain, CNAME rewrites differing in letter case, per-page referrer exceptions, each with aimed question sequences; regex rules whose text is new to the process (ids from a process-wide counter, answers compared modulo the id) incl. one expression in a case-sensitive and a case-insensitive rule. "
-                "Oracle: answer at each step == answer of a fresh storage+engines built from the same text for that query alone (canonical snapshot: sorted rule texts per field, flags, effective rewrites, cosmetic selectors); invariant after every step: snapshots of all earlier result objects unchanged (snapshots include the parsed rewrite data of the rules, read before and after the derived-result methods); the questions touching the generated regex rules are asked again in the OPPOSITE order to fresh engines over lists with the expressions renamed apart and must get the same sets of matching rules (state that outlives an engine). Non-trivial = history repeats a query after a query with different client fields, or calls a derived-result method on an old result; distinct by history hash.",
+                "Oracle: answer at each step == answer of a fresh storage+engines built from the same text for that query alone (canonical snapshot: sorted rule texts per field, flags, effective rewrites, cosmetic selectors); invariant after every step: snapshots of all earlier result objects unchanged (snapshots include the parsed rewrite data of the rules, read before and after the derived-result methods); histories may contain a read error that goes away again (lists wrapped so that the next retrieval fails once; the question asked meanwhile is not compared, every later one is); the questions touching the generated regex rules are asked again in the OPPOSITE order to fresh engines over lists with the expressions renamed apart and must get the same sets of matching rules (state that outlives an engine). Non-trivial = history repeats a query after a query with different client fields, or calls a derived-result method on an old result; distinct by history hash.",
         "technique": "stateful/model-based property-based testing (rapid): long-lived engine vs fresh engine per query, history invariant on earlier results",
         "level_text": "Sampled histories with a fresh-engine model; field toggling is built into the generator because unsteered histories miss pooled-request leaks.",
         "level_note": "Trusted: engine construction itself is deterministic (a fresh engine is the model).",
@@ -194,7 +194,7 @@ PROPS = {
         "level": "fault_enumeration",
         "shards": (4, 16),
         "rule": "rapid generates (file-backed lists covering all three network tables, hosts lines, rewrites; history q1..qn with n<=12, DNS and web, repeats); for EACH generated pair EVERY fault point k in 0..n x kind in {storage.Close(), list.File replaced by an already-closed *os.File} is enumerated on a freshly built engine; evaluations = (history, fault point, query) triples. "
-                "Oracle: for i>=k no panic, result(qi) subset of the fault-free answer, every rule returned before k that matches qi is still returned; for i<k results equal the fault-free answer. Non-trivial = some query after the fault has a matching rule that was materialised before the fault; distinct by (lists, history).",
+                "Oracle: for i>=k no panic, result(qi) subset of the fault-free answer, every rule returned before k that matches qi is still returned; for i<k results equal the fault-free answer. Further kinds and phases: only the first list unreadable; four goroutines querying after a partial fault; four goroutines loading the rules on a cold cache BEFORE the fault and sequential questions after it; list ids that cross with byte offsets of the other list; a rule text of more than a kilobyte. A fatal error of the Go runtime (unsynchronised map access) that kills the shard is reported as a violation with the case the shard was running. Non-trivial = some query after the fault has a matching rule that was materialised before the fault; distinct by (lists, history).",
         "exhaustive_note": "for every generated (lists, history): all n+1 fault points x 2 fault kinds",
         "technique": "fault-point enumeration over rapid-generated (list, history) pairs with a fault-free engine as oracle",
         "level_text": "Every fault point of every generated history is enumerated; histories and lists are sampled.",
@@ -204,7 +204,7 @@ PROPS = {
     "C20": {
         "shards": (4, 16),
         "fuzz": [("FuzzC20", 60)],
-        "rule": "rapid: bodies of 0..48 KiB assembled from segments (ASCII, high-byte runs, all 256 byte values) and 0..4 markers (</head, <link, <style, <script in any letter case, truncated and near-miss markers) with segment lengths that put a marker before, within +-12 bytes of, and beyond the 16 KiB window, also +-8 around the half window for high-byte prefixes (which double when transcoded); plain or gzip Content-Encoding (one or 2..4 concatenated members); CSP headers; stale or absent (-1) declared length; optionally preceded by a response whose gzip body is cut off (its filtering fails); thorough adds native fuzzing of the body. "
+        "rule": "rapid: bodies of 0..48 KiB assembled from segments (ASCII, high-byte runs, all 256 byte values) and 0..4 markers (</head, <link, <style, <script in any letter case, truncated and near-miss markers) with segment lengths that put a marker before, within +-12 bytes of, and beyond the 16 KiB window, also +-8 around the half window for high-byte prefixes (which double when transcoded); plain or gzip Content-Encoding (one or 2..4 concatenated members); CSP headers; stale or absent (-1) declared length; optionally preceded by a response whose gzip body is cut off (its filtering fails); documents that are gzip streams themselves, non-marker tags such as <body>, a mere mention of the content-script address, bodies around and beyond 4 MiB; a quarter of the cases is additionally served by an in-process web server and fetched through the real proxy.Server on a loop-back port (same reconstruction oracle, tag located by its rendered form); thorough adds native fuzzing of the body. "
                 "Oracle (through the verif hook VerifFilterHTML): first marker at original offset i: i>=16384 or none -> output == body; i and its Latin-1->UTF-8 transcoded offset < 16384 -> output == body[:i]+tag+body[i:]; in between either is accepted (counted 'ambiguous-window-unit'); ContentLength == len(output); Content-Encoding removed. Non-trivial = high byte before the marker, marker within 8 bytes of the window edge, or gzip; distinct by (body, gzip).",
         "technique": "property-based testing (rapid) + native fuzzing with a byte-exact reconstruction oracle",
         "level_text": "Generated and coverage-guided search for a body whose bytes are not preserved or whose tag lands elsewhere.",
